@@ -114,7 +114,7 @@ def isCommitScript (s : Bytes) : Bool := decide (38 ≤ s.length) && (s.take 6 =
 /-- "If there are more than one scriptPubKey matching the pattern, the one with highest output
     index is assumed to be the commitment." -/
 def commitScript? (cb : Tx) : Option Bytes :=
-  (cb.vout.map (·.scriptPubKey)).reverse.find? isCommitScript
+  ((cb.vout.map (·.scriptPubKey)).filter isCommitScript).getLast?
 
 /-- the coinbase's input witness is exactly one 32-byte item (the witness reserved value) and the
     32 bytes after the header of the commitment script are Hash(witness root ‖ reserved value) -/
